@@ -1,5 +1,6 @@
 SPECIFICATION GenSpec
 CONSTANTS
+  GlobPosBytes = 2
   LoopBits = 3
 INVARIANT Emit
 CHECK_DEADLOCK FALSE
